@@ -253,7 +253,13 @@ class Res(object):
     defs, entry = self.reaching(nid, name, after)
     for m in self.du.muts.get(name, ()):
       if self.reaching(m, name)[0] & defs:
-        return None      # a container mutated in place is an object, not a value: keep its name
+        # a container mutated in place is an object, not a value: keep its name -- unless the
+        # local merely names an object that exists elsewhere (`pending = self._queue`)
+        vals = [self._plain_value(self.cfg.nodes[d], name) for d in defs]
+        if len(vals) == 1 and vals[0] is not None and dotted(vals[0]) is not None and \
+            not isinstance(vals[0], ast.Name):
+          break
+        return None
     if entry and name in self.params:
       return None
     if not defs:
@@ -287,6 +293,38 @@ class Res(object):
               y.id in self.reaching(ifn[0].id, name)[0]:
             return ast.IfExp(test=ox.test, body=_At(vy, y.id), orelse=_At(vx, x.id)), ifn[0].id
     return None
+
+  def values_at(self, nid, name):
+    """[(value expr, def node id)] of every definition of `name` that reaches nid, when all of
+    them are plain assignments (and the name is not a parameter / unbound there); else None."""
+    if name in self.params and not self.defs.get(name):
+      return None
+    defs, entry = self.reaching(nid, name)
+    if entry or not defs:
+      return None
+    out = []
+    for d in sorted(defs):
+      v = self._plain_value(self.cfg.nodes[d], name)
+      if v is None:
+        return None
+      out.append((v, d))
+    return out
+
+  def alternatives(self, e, nid, depth=0):
+    """Leaf alternatives of expression e at node nid: conditional expressions are split and a
+    local bound on several paths (if/else, try/except) is followed to each of its values.
+    [(leaf expr resolved, node id where it is evaluated)]."""
+    out = []
+    for (facts, leaf) in Res.cases(self.expand(e, nid)):
+      if isinstance(leaf, ast.Name) and depth < 6:
+        vals = self.values_at(nid, leaf.id)
+        if vals and not any(self.reaching(m, leaf.id)[0] & {d for (v, d) in vals}
+                            for m in self.du.muts.get(leaf.id, ())):
+          for (v, d) in vals:
+            out += self.alternatives(v, d, depth + 1)
+          continue
+      out.append((leaf, nid))
+    return out
 
   # ------------------------------------------------------------------ expansion
   def expand(self, e, nid=None, stop=(), depth=8):
@@ -1114,3 +1152,31 @@ def _replace_node(root, old, new):
             val[i] = new
             return True
   return False
+
+
+def sorted_view(res, fn, e, nid):
+  """When expression e at node nid denotes a sequence that was just put in order, return
+  (what was sorted, the sorted()/sort() call): either e resolves to `sorted(X, ...)`, or e is a
+  local list L with an `L.sort(...)` that dominates nid and no other change of L in between
+  (X is then what L was built from: `L = list(X)`). None otherwise."""
+  v = res.expand(e, nid)
+  if isinstance(v, ast.Call) and dotted(v.func) == "sorted" and v.args:
+    return v.args[0], v
+  if isinstance(e, ast.Name):
+    L = e.id
+    cfg = res.cfg
+    for n in cfg.nodes:
+      for c in calls_in(n.exprs):
+        if isinstance(c.func, ast.Attribute) and c.func.attr == "sort" and \
+            isinstance(c.func.value, ast.Name) and c.func.value.id == L and \
+            cfg.dominated_by(nid, {n.id}):
+          between = cfg.reach_after({n.id}) & cfg.reach({nid}, forward=False)
+          others = (set(res.du.muts.get(L, ())) | set(res.defs.get(L, ()))) - {n.id}
+          if between & others:
+            continue
+          vals = res.values_at(n.id, L)
+          if not vals or len(vals) != 1:
+            continue
+          src = strip_wrappers(res.expand(vals[0][0], vals[0][1]), ("list", "tuple"))
+          return src, c
+  return None
